@@ -2378,3 +2378,68 @@ def check_column_branch_agreement(run, key, param, rule='R16'):
     else:
         run.violation(rule, key, construct, 'a single point is tested with %s but each column of a 3xN array with %s: the same point gives '
                       'different answers in the two forms' % (a, b), f=f, node=multi[0][0])
+
+
+# =========================================================================== determinant (symbolic branch)
+def _leibniz(k, name='P0'):
+    import itertools
+    tot = Poly()
+    for perm in itertools.permutations(range(k)):
+        sign = 1
+        for i in range(k):
+            for j in range(i + 1, k):
+                if perm[i] > perm[j]:
+                    sign = -sign
+        term = Poly.const(sign)
+        for i in range(k):
+            term = term * Poly.atom('%s[%d, %d]' % (name, i, perm[i]))
+        tot = tot + term
+    return tot
+
+
+def check_det(run, rule='R16'):
+    """base.det: every return is a determinant route (sympy Matrix(m).det(), numpy linalg.det(m)) or, under a shape fact
+    m.shape == (k, k), a closed form whose polynomial normal form equals the Leibniz expansion of the k x k determinant."""
+    cx = Ctx(run, 'base/transformsNd:det')
+    f = cx.f
+    m = cx.pname(0)
+    n = 0
+    for r, fs in cx.returns():
+        n += 1
+        e = canon(cx.fi, r.value, inline=False)
+        construct = 'det return ' + src(r.value, 50)
+        if matches('Matrix(%s).det()' % m, e) is not None or matches('det(%s)' % m, e) is not None:
+            run.holds(rule, f.key, construct, 'determinant computed by the library routine on the whole matrix', f=f, node=r)
+            continue
+        k = None
+        for fc in fs:
+            b = matches('%s.shape == (_A, _B)' % m, fc[2].ast) if fc[1] else None
+            if b is not None and isinstance(b['_A'], ast.Constant) and b['_A'].value == getattr(b['_B'], 'value', None):
+                k = b['_A'].value
+        if k is None or k > 4:
+            run.error('R16: det: return %s is neither a library route nor a closed form under a shape test' % src(r.value, 50))
+            continue
+        # names unpacked from the matrix: (a, b, c), (d, e, f), (g, h, i) = m
+        env = {}
+        for st in own_walk(f.node):
+            if isinstance(st, ast.Assign) and len(st.targets) == 1 and isinstance(st.targets[0], ast.Tuple) and \
+                    isinstance(st.value, ast.Name) and st.value.id == m:
+                for i, row in enumerate(st.targets[0].elts):
+                    if isinstance(row, ast.Tuple):
+                        for j, x in enumerate(row.elts):
+                            if isinstance(x, ast.Name):
+                                env[x.id] = ast.Subscript(value=ast.Name(id=m, ctx=ast.Load()), slice=ast.Tuple(elts=[ast.Constant(value=i), ast.Constant(value=j)], ctx=ast.Load()), ctx=ast.Load())
+        try:
+            got = Normaliser(rename=cx.rename).poly(_Subst(env).visit(_copy.deepcopy(e)))
+        except Unrecognised as ex:
+            run.error('R16: det unrecognised: %s' % ex)
+            continue
+        want = _leibniz(k)
+        if got == want:
+            run.holds(rule, f.key, construct, 'closed form equals the %dx%d Leibniz expansion' % (k, k), f=f, node=r)
+        else:
+            diff = got - want
+            run.violation(rule, f.key, construct, 'the closed form for a %dx%d matrix differs from the determinant by %s: symbolic and numeric '
+                          'determinants of the same matrix disagree' % (k, k, diff), f=f, node=r)
+    if n < 2:
+        run.error('R16: det: fewer than 2 returns')
